@@ -4,6 +4,7 @@
      H  AST shape built by the bridge model from that tree   (format of harness/src/bin/c03.rs)
      V  <mask> <hex>: derivable in the grammar variant with the deviations of the mask switched on (Deviations.v);
         mask 0 = the specification, 8190 = every known deviation
+     W  <class> <n>: token class comparison PEG rule vs ABNF rule on every string up to length n over the class alphabet (Tokens.v token_sweep)
      R  derivable from RFC 8610/9682 + documented leniencies, names read as maximal tokens (the C03 language)?   Y | N | EFUEL
      L  the same without the tokenisation convention
      F  derivable from the RFC rules alone?                      Y | N | EFUEL *)
@@ -35,6 +36,9 @@ let () =
        | "T" :: rest -> print_endline (string_of_codes (cddl_tree (input_of_hex (match rest with h :: _ -> h | [] -> ""))))
        | "H" :: rest -> print_endline (string_of_codes (cddl_shape (input_of_hex (match rest with h :: _ -> h | [] -> ""))))
        | "V" :: m :: rest -> print_endline (string_of_codes (variant_verdict (n_of_int (int_of_string m)) (input_of_hex (match rest with h :: _ -> h | [] -> ""))))
+       | "W" :: k :: n :: _ ->
+         let rec nat_of_int i = if i = 0 then O else S (nat_of_int (i - 1)) in
+         print_endline (string_of_codes (token_sweep_verdict (n_of_int (int_of_string k)) (nat_of_int (int_of_string n))))
        | "R" :: rest -> print_endline (string_of_codes (spec_verdict (input_of_hex (match rest with h :: _ -> h | [] -> ""))))
        | "L" :: rest -> print_endline (string_of_codes (lenient_verdict (input_of_hex (match rest with h :: _ -> h | [] -> ""))))
        | "F" :: rest -> print_endline (string_of_codes (rfc_verdict (input_of_hex (match rest with h :: _ -> h | [] -> ""))))
